@@ -195,6 +195,68 @@ fn benign_space(ctx: &Ctx, sizes: &[usize]) {
     );
 }
 
+/// the benign families with rows and columns scaled by powers of ten up to 1e+-3 (condition numbers up to ~1e12): long
+/// runs in which the recurrence residual has every opportunity to drift away from b - A x
+fn scaled_family_space(ctx: &Ctx, sizes: &[usize]) {
+    let mut cases = vec![];
+    for &n in sizes {
+        for f in FAMILIES.iter() {
+            for sc in 0..4usize {
+                cases.push((n, *f, sc));
+            }
+        }
+    }
+    ctx.lattice(
+        &format!("row/column-scaled families (D1 A D2, scalings 1e-3..1e3) of orders {:?} x 3 rhs x 2 guesses x 3 tolerances x budgets {{n,10n,40n}} x 5 solvers", sizes),
+        cases.len() as u64,
+        |i| format!("{:?}", cases[i as usize]),
+        |i, acc| {
+            let (n, f, sc) = cases[i as usize];
+            let mut d = family(f, n);
+            let sr = |k: usize| -> f64 { [1.0, 1e3, 1e-3, 10.0, 0.1][(k * (sc + 1) + sc) % 5] };
+            let scn = |k: usize| -> f64 { [1.0, 1e-2, 1e2, 1e3, 1e-3][(k * 2 + sc) % 5] };
+            for r0 in 0..n {
+                for c0 in 0..n {
+                    d[r0][c0] *= if sc % 2 == 0 { sr(r0) } else { sr(r0) * scn(c0) };
+                }
+            }
+            let a = sparse_of(&d, sc % 3);
+            let j = Judge { d: &d, a: &a, anorm: norm_inf_mat(&d) };
+            let xs = xstar(n);
+            let b1 = matvec(&d, &xs);
+            let e0: Vec<f64> = (0..n).map(|k| if k == 0 { 1.0 } else { 0.0 }).collect();
+            let rhs = vec![b1.clone(), e0, (0..n).map(|k| if k % 3 == 0 { 1e3 } else { -1e-3 }).collect::<Vec<f64>>()];
+            let gs = vec![vec![0.0; n], (0..n).map(|k| if k % 2 == 0 { 0.5 } else { -2.0 }).collect::<Vec<f64>>()];
+            acc.hit("scaled family members");
+            for b in rhs.iter() {
+                for x0 in gs.iter() {
+                    for &tol in TOLS.iter() {
+                        for &s in SOLVERS.iter() {
+                            for budget in [n, 10 * n, 40 * n] {
+                                let key = || format!("{:?} scaled family={:?} n={} scaling#{} b[0]={:e} x0[0]={:e} tol={:e} budget={}", s, f, n, sc, b[0], x0[0], tol, budget);
+                                let mut local = Acc::new("t");
+                                let res = catch(|| j.run(s, b, x0, budget, tol, &mut local));
+                                for (k, v) in std::mem::take(&mut local.hits) {
+                                    *acc.hits.entry(k).or_insert(0) += v;
+                                }
+                                if local.nontrivial > 0 {
+                                    acc.nontriv("configurations with an Ok answer");
+                                }
+                                acc.merge_worst(local);
+                                match res {
+                                    Ok(Ok(())) => {}
+                                    Ok(Err(e)) => acc.fail(i, key(), e),
+                                    Err(p) => acc.fail(i, key(), format!("unexpected panic: {}", p)),
+                                }
+                            }
+                        }
+                    }
+                }
+            }
+        },
+    );
+}
+
 fn main() {
     let ctx = Ctx::from_args("C08");
     ctx.level("exploration");
@@ -307,6 +369,7 @@ fn main() {
             },
         );
     }
+    scaled_family_space(&ctx, if ctx.quick() { &[2, 3, 5, 8, 13, 21] } else { &[2, 3, 4, 5, 6, 8, 10, 13, 16, 21, 27, 34, 47, 60] });
     if ctx.quick() {
         benign_space(&ctx, &[1, 2, 3, 5, 8, 13, 21, 34, 60]);
     } else {
